@@ -309,9 +309,38 @@ def run_to_completion(state: State, external_event: Union[dict, Event]) -> State
                     if "data" in event.arguments and isinstance(event.arguments, dict):
                         state.context.update(event.arguments["data"])
 
-                handled_event_loops = _process_internal_events_without_default_matchers(
-                    state, event
-                )
+                try:
+                    handled_event_loops = (
+                        _process_internal_events_without_default_matchers(state, event)
+                    )
+                except Exception as e:
+                    # An internal event with missing or ill-typed arguments, e.g. `send StartFlow()`:
+                    # only the flow that sent it fails, the event itself is dropped
+                    log.warning(
+                        "Internal event '%s' could not be processed due to Colang runtime exception: %s",
+                        event.name,
+                        e,
+                        exc_info=True,
+                    )
+                    colang_error_event = Event(
+                        name="ColangError",
+                        arguments={
+                            "type": str(type(e).__name__),
+                            "error": str(e),
+                        },
+                    )
+                    _push_internal_event(state, colang_error_event)
+                    source_flow_uid = event.arguments.get("source_flow_instance_uid")
+                    if (
+                        isinstance(source_flow_uid, str)
+                        and source_flow_uid in state.flow_states
+                    ):
+                        _abort_flow(
+                            state,
+                            state.flow_states[source_flow_uid],
+                            event.matching_scores,
+                        )
+                    continue
 
                 head_candidates = _get_all_head_candidates(state, event)
 
